@@ -692,6 +692,104 @@ CHECKS["C10"].update(
     technique="Fail-closed ast->Gallina translation (check, path, load base, call structure) + equivalence and containment "
               "theorems in Coq + differential execution on generated worlds, histories, nested models and per-call traces")
 
+# ---- second deepening round
+CHECKS["C19"]["text"] = CHECKS["C19"]["text"] + (
+    " The annotation ops of the model are proved equal to a per-run translation of the 20 decision sites of shard, "
+    "set_pipeline_stage, sharding_of, _drop_sharding_for_value and remove_device_configuration (C19_model_is_translation, "
+    "C19_drop_is_translation); 25 methods (incl. serde's multi-device (de)serializers and the cloner's remap) are pinned by "
+    "AST digest; configurations are recognised by identity, not equality (C19_configurations_by_identity); cross-root value "
+    "uses are modelled.")
+CHECKS["C19"]["note"] = TRUST + ("Round trips are modelled where the wiring survives them (rt_domain). Subgraph bodies have no "
+    "inputs of their own. Function-input shapes are not carried by FunctionProto. The loop skeletons of the translated methods "
+    "and the clone and serde methods are statement-pinned rather than translated. Behaviour after shape edits of sharded values "
+    "is unspecified by the library (observation).")
+CHECKS["C19"]["technique"] = ("Hand model tied to the source by a per-run translation of the decision sites with machine-checked "
+    "equivalence + AST pins; per-step vm_compute correspondence (node state, checker output, serialization, to_proto content)")
+CHECKS["C14"].update(
+    text="PassBase.__call__, Sequential.call, PassManager.call and functionalize are transcribed from the source on every run "
+         "(fail closed) into a small statement language with an interpreter in Coq and proved equal to the model "
+         "(C14_*_call_translated); on that model: identity rule, flag = OR, early-stop trace, manager convergence under a "
+         "measure, result describes this application only (PassResult arguments); call_onnx_api read-only for every outcome; "
+         "exact modified flag (False iff unchanged) and fixpoint bounds for ClearMetadataAndDocString, RemoveUnusedNodes (flat), "
+         "TopologicalSort, Add/RemoveInitializers(To/From)Inputs, OutputFix (contract level, inserted nodes owned by the "
+         "output's graph) and RemoveUnusedOpsets. CSE, identity elimination, lifting, dedup, NameFix, unused functions, inliner "
+         "and shape-inference merge are decided by the property oracle (every pass, compositions, r = p(r) repetition, "
+         "pass-instance reuse, ONNX-boundary faults, deterministic families).",
+    technique="Per-run source transcription + Coq equivalence proofs for the pass infrastructure; hand models + vm_compute "
+              "correspondence (9 streams) for call_onnx_api and seven passes; public-API oracle sweep")
+CHECKS["C14"]["note"] = CHECKS["C14"]["note"] + (" Trusted additionally: the transcriber in c14.py and the interpreter "
+    "PyInfra.run (the semantics given to that Python fragment).")
+CHECKS["C15"].update(
+    text="Coq proofs over three executable models, with a per-run fail-closed ast->Gallina translation of the naming primitives "
+         "(the four NameAuthority methods, _find_and_record_next_unique_name, the SimpleNameGenerator and the _assign / "
+         "_fix_duplicate functions) and equality theorems between the hand models and the translation (C15_gen_*). (A) "
+         "Freshness of generated names against the full log of registered and assigned names for every edit history, and at "
+         "construction against every explicit name of the graph. (B) NameFixPass after 25cf9b5 and 5fabe37: never raises, full "
+         "per-graph post-condition under a scoping hypothesis that admits captures from enclosing graphs in any order, unique "
+         "names kept across functions, only names change, never worse on any scoping; each remaining hypothesis is shown "
+         "necessary by a refuted witness. (C) rename_values is all-or-nothing for every assignment, pending initializers "
+         "included. Tied on every run by Coq-evaluated correspondence of names, initializer dictionaries, outcomes, owner map, "
+         "payload tokens and const flags; three known findings (ill-scoped models) are replayed, fixed ones are corpus cases.",
+    technique="Coq proof over models of the name authority, NameFixPass and rename_values, proved equal to a per-run "
+              "translation of the naming primitives; vm_compute correspondence per case")
+CHECKS["C16"]["note"] = CHECKS["C16"]["note"] + (" The SymbolicDim arithmetic methods are translated statement by statement "
+    "from _core.py on every run; C16_operator_methods proves each branch equals Python integer / rational arithmetic and the "
+    "tree correspondence evaluates build trees through the translated methods inside Coq. _ALLOWED_FUNCTIONS is pinned entry "
+    "by entry (C16_function_table_exact). The tokenizer remains a hand model under per-method AST digests.")
+CHECKS["C16"]["technique"] = ("Executable Gallina model of tokenizer/parser/evaluator; generated tables, source digests and a "
+    "per-run translation of the operator methods (fail-closed); vm_compute case files; property oracle with exact Fractions")
+CHECKS["C13"]["text"] = CHECKS["C13"]["text"] + (
+    " The source the model describes is regenerated on every run: the statements of the seven Cloner methods, the four clone() "
+    "entry points and functionalize's wrapper are proved equal to the pinned statements the model was written against "
+    "(C13_source_pinned, fail closed), and Cloner._remap_device_configurations is translated statement by statement into "
+    "Gallina and proved equal to the model's remap for every None-free value map (C13_remap_translation), the translation also "
+    "run against the method on a grid inside Coq. Type denotation, MetadataStore invalid keys and Node.overload are observed by "
+    "the canonical form (C13_canon_observes_denotation_invalid_keys_overload).")
+CHECKS["C13"]["note"] = CHECKS["C13"]["note"] + (" Six of the seven Cloner methods are tied by the statement pin + "
+    "correspondence, not by translation; inner element-type object sharing between two values of the original is not modelled.")
+CHECKS["C09"]["text"] = CHECKS["C09"]["text"] + (
+    " The per-task program of the LTS (callback lock(s) -> callback -> unlock -> open descriptor -> tensor lock -> "
+    "budget.acquire -> write -> release -> unlock) is proved equal, on every run, to the statement order extracted from "
+    "_write_one / _write_serial / _write_tensor / _write_tensor_with_budget_at / _locked_callback "
+    "(C09_program_order_matches_source). Further theorems: one global acquisition order for serial and parallel writers "
+    "(C09_lock_order); every evaluation under a reservation of the single shared budget (C09_write_under_budget). The "
+    "extractor also pins that every writer path receives that budget and that there is one job per tensor. Zero-length "
+    "tensors, the convert_tensors_to_external / _write_external_tensors entry points and aligned multi-KiB layouts are in the "
+    "generated streams and the Coq-checked traces.")
+CHECKS["C20"].update(
+    text="Restore and transparency proved in Coq for all well-nested programs (unbounded depth, exceptions at any exit, "
+         "try/except anywhere) over the key lists, wrapper shapes and argument forwarding re-extracted from _wrappers.py on "
+         "every run (C20_forwarding_complete: every original is called with self, *args, **kwargs unchanged). "
+         "Journal.__init__, __enter__, __exit__ and record are translated statement by statement from _journaling.py and proved "
+         "equal to the model's enter, exit_ and record, including that __exit__ returns None (C20_*_translated). The weak-"
+         "reference clause is a theorem over the translation (C20_journal_weak_only: entries keep only weakref.ref(obj); no "
+         "parameter, exception or traceback is stored). Hooks that do not raise are proved transparent and restoration holds "
+         "for every hook behaviour; a raising hook is characterised as an observation outside the property's quantifier. "
+         "Tied by Coq-evaluated correspondence of journaled, traced and plain runs.",
+    technique="Per-run ast->Gallina translation of the Journal methods plus equivalence theorems; extracted wrapper tables; "
+              "Coq-evaluated correspondence of journaled, traced and plain runs; raising-hook stream")
+CHECKS["C20"]["note"] = TRUST + ("Hypothesis wf: a Journal object is not re-entered while active (observation "
+    "C20_reentrant_use_not_restored shows it is needed). Modelled, not verified: purity of details_func/repr/getattr inside "
+    "wrappers, determinism of the original methods, threads. Hooks are per-journal functions entry -> option exn fixed before "
+    "entry; hooks that mutate the IR or are added/cleared mid-block are not modelled. The JournalEntry field list and "
+    "_get_stack_trace are pinned by text; the classification of JournalEntry keyword arguments (scalar/weak/strong) is done "
+    "by the translator (trusted).")
+CHECKS["C18"].update(
+    text="Coq theorems on an executable model whose core loops are regenerated from _extractor.py / _implicit_usage.py on every "
+         "run by a fail-closed statement translator and proved equal to the hand model (C18_translated_walk, _walk_body, "
+         "_frontier, _captures, _implicit_usages): the backward walk and frontier validation of "
+         "_find_subgraph_bounded_by_values, _collect_all_external_values and _collect_implicit_usages. The model's value table "
+         "is derived from the graph structure inside Coq and the implementation's value.graph / producer() / is_initializer() "
+         "are pinned against it. C18_semantics and C18_semantics_nested are full strength; C18_captures_exact_structural is "
+         "stated on the structure alone. The initialisation / sort / return of the walk, extract, _process_node and "
+         "analyze_implicit_usage are hand-modelled and AST-pinned. The correspondence includes extract -> edit -> extract "
+         "histories on the same objects.",
+    technique="Coq proof over a model proved equal to a per-run translation of the extractor/analysis loops; vm_compute "
+              "correspondence incl. accessor pin and edit histories")
+CHECKS["C18"]["note"] = TRUST + ("Oracle only: the cloner's copying of types, shapes, metadata and const_value (only its "
+    "definedness checks are modelled; C13); list.sort by node index is modelled as a filter of the original order; Python set "
+    "iteration order is a universally quantified shuffle parameter.")
+
 
 def main():
     props = [json.loads(l) for l in open(os.path.join(VERIF, "properties.jsonl"))]
